@@ -13,9 +13,11 @@ package main
 import (
 	"encoding/json"
 	"fmt"
+	"math/rand"
 	"net"
 	"net/http"
 	"reflect"
+	"sort"
 	"strings"
 	"sync"
 	"syscall"
@@ -630,5 +632,230 @@ func scenC12App(run *vlab.Run, sx, tmp string) {
 		run.Count("app_sigint_server:"+stall, 1)
 		run.Max("app_max_exit_after_start_ms", res.TExit.Milliseconds())
 		run.Distinct(fmt.Sprintf("%s/%s/%d", strings.Join(args, " "), stall, sigAfter))
+	}
+}
+
+// ---------------------------------------------------------------------------
+// c14live: `sx arp --json --live` (the one command with de-duplication): over several passes in which every host
+// answers every time, each stdout line is one JSON object with the documented keys, and every distinct host is
+// printed exactly once, at its first sighting (hosts that come up at a later pass appear then).
+
+func init() { scenarios["c14live"] = scenC14Live }
+
+func scenC14Live(run *vlab.Run, sx, tmp string) {
+	rng := run.Rand("c14live")
+	n := run.Pick(8, 48)
+	for i := 0; i < n; i++ {
+		bits := 27 + rng.Intn(3)
+		base := (0x0a090000 | rng.Uint32()&0xff00) &^ (1<<uint(32-bits) - 1)
+		size := uint32(1) << uint(32-bits)
+		upFrom := map[uint32]int{}
+		for a := base; a < base+size; a++ {
+			switch rng.Intn(3) {
+			case 0:
+				upFrom[a] = 0
+			case 1:
+				upFrom[a] = 1 + rng.Intn(2)
+			}
+		}
+		// option order varies: the flags are independent
+		args := [][]string{{"arp", "--json", "--live", "150ms"}, {"arp", "--live", "150ms", "--json"}}[i%2]
+		args = append(args, "-i", "tap0", "--srcip", foreignSrcIP, fmt.Sprintf("%s/%d", ipS(base), bits))
+		if !run.Mine(i) {
+			continue
+		}
+		run.Case(fmt.Sprintf("c14live%03d", i), args)
+		var mu sync.Mutex
+		nTx := 0
+		firstSeen := map[uint32]int{} // pass of the first answer
+		prng := rand.New(rand.NewSource(int64(i)))
+		res := RunCase(sx, &CaseSpec{Args: args, Setup: commonWorld("tap"), Timeout: 60 * time.Second,
+			OnTx: func(cr *CaseRun, d *Dev, frame []byte) {
+				dec, a, _, ok := decodeProbe("arp", frame, oracle.LinkEthernet)
+				if !ok {
+					return
+				}
+				mu.Lock()
+				nTx++
+				pass := (nTx - 1) / int(size)
+				fire := nTx == 4*int(size)+1
+				from, up := upFrom[a]
+				answer := up && pass >= from && pass < 4
+				if answer {
+					if _, seen := firstSeen[a]; !seen {
+						firstSeen[a] = pass
+					}
+				}
+				mu.Unlock()
+				if answer {
+					fr, _ := replyFor("arp", oracle.LinkEthernet, dec, a, 0, prng)
+					cr.Inject(d, fr)
+				}
+				if fire {
+					time.AfterFunc(60*time.Millisecond, func() { cr.Signal(syscall.SIGINT) })
+				}
+			}})
+		run.Eval(1)
+		if !baseChecks(run, res, args, false) {
+			continue
+		}
+		printed := map[uint32]int{}
+		bad := false
+		for _, l := range res.Stdout {
+			var m map[string]interface{}
+			body := strings.TrimSuffix(l, "\n")
+			if !strings.HasSuffix(l, "\n") || strings.ContainsAny(body, "\n\r") || json.Unmarshal([]byte(body), &m) != nil {
+				run.Violation("live:line-not-one-json-object", fmt.Sprintf("stdout line of `arp --json --live` is not exactly one JSON object: %.200q", l), args)
+				bad = true
+				break
+			}
+			ipStr, _ := m["ip"].(string)
+			mac, _ := m["mac"].(string)
+			a, ok := oracle.RefIPv4(ipStr)
+			if !ok || mac == "" {
+				run.Violation("live:keys", fmt.Sprintf("JSON line without the documented ip/mac keys: %.200q", l), args)
+				bad = true
+				break
+			}
+			want := [6]byte{2, 0x77, byte(a >> 24), byte(a >> 16), byte(a >> 8), byte(a)}
+			if mac != oracle.MACString(want[:]) {
+				run.Violation("live:value", fmt.Sprintf("line for %s carries MAC %s, the host answered with %s", ipStr, mac, oracle.MACString(want[:])), args)
+				bad = true
+			}
+			printed[a]++
+		}
+		if bad {
+			continue
+		}
+		mu.Lock()
+		for a, c := range printed {
+			if c > 1 {
+				run.Violation("live:host-printed-twice", fmt.Sprintf("%s printed %d times over 4 passes (de-duplication: once, at its first sighting): %s", ipS(a), c, strings.Join(args, " ")), args)
+			}
+			if _, ok := firstSeen[a]; !ok {
+				run.Violation("live:host-never-answered", fmt.Sprintf("%s printed but it never answered", ipS(a)), args)
+			}
+		}
+		missing := 0
+		for a := range firstSeen {
+			if printed[a] == 0 {
+				missing++
+			}
+		}
+		mu.Unlock()
+		if missing > 0 {
+			// a reply that is not printed is C03's / C16's business (and load-sensitive): only counted here
+			run.Count("live_hosts_not_printed", int64(missing))
+		}
+		run.Count("live_json_runs", 1)
+		run.Count("live_json_lines_verified", int64(len(res.Stdout)))
+		run.Distinct(strings.Join(args, " "))
+	}
+}
+
+// ---------------------------------------------------------------------------
+// c15app: --rate on the application commands, seen from the wire: every connection attempt (SYN, kernel
+// timestamp on lo) that `sx socks` / `sx elastic` makes to servers that accept and hang up at once. One probe is
+// one connection there, so the sliding-window bound of C15 applies to the SYNs; a second, uncharged attempt per
+// target doubles the rate. Upper bound for sx's speed = lower bound on spans: judged with the three-run rule.
+
+func init() { scenarios["c15app"] = scenC15App }
+
+func scenC15App(run *vlab.Run, sx, tmp string) {
+	rng := run.Rand("c15app")
+	n := run.Pick(12, 60)
+	for i := 0; i < n; i++ {
+		kind := []string{"socks", "elastic"}[i%2]
+		rate := []string{"40/200ms", "100/s", "30/100ms", "200/s"}[i/2%4]
+		workers := []int{100, 7, 1000}[i/8%3]
+		bits := 26
+		base := (uint32(0x7f000000) | uint32(1+rng.Intn(200))<<16 | uint32(rng.Intn(256))<<8) &^ (1<<uint(32-bits) - 1)
+		port := 20000 + rng.Intn(20000)
+		behaviour := []string{"close-at-once", "reset", "close-after-request"}[rng.Intn(3)]
+		if !run.Mine(i) {
+			continue
+		}
+		ln, err := net.Listen("tcp4", fmt.Sprintf("0.0.0.0:%d", port))
+		if err != nil {
+			continue
+		}
+		go func() {
+			for {
+				c, err := ln.Accept()
+				if err != nil {
+					return
+				}
+				go func(c net.Conn) {
+					switch behaviour {
+					case "reset":
+						if tc, ok := c.(*net.TCPConn); ok {
+							tc.SetLinger(0)
+						}
+					case "close-after-request":
+						c.SetReadDeadline(time.Now().Add(500 * time.Millisecond))
+						c.Read(make([]byte, 512))
+					}
+					c.Close()
+				}(c)
+			}
+		}()
+		args := []string{kind, "--json", "-p", fmt.Sprint(port), "-w", fmt.Sprint(workers), "-t", "2s", "--rate", rate, fmt.Sprintf("%s/%d", ipS(base), bits)}
+		run.Case(fmt.Sprintf("c15app%03d", i), map[string]interface{}{"argv": args, "server": behaviour})
+		rn, rw, _ := oracle.RefRate(rate)
+		per := rw / time.Duration(rn)
+		const burst = 10
+		for attempt := 0; attempt < 3; attempt++ {
+			res := RunCase(sx, &CaseSpec{Args: args, Setup: loOnly, Sniff: []string{"lo"}, Timeout: 120 * time.Second})
+			run.Eval(1)
+			if !baseChecks(run, res, args, true) {
+				break
+			}
+			if res.Drops > 0 {
+				run.Inconclusive("sniffer drops")
+				break
+			}
+			var ts []time.Time
+			for _, e := range res.Sniffed("lo") {
+				d := oracle.Decode(e.Data, oracle.LinkEthernet)
+				if d.TCP == nil || e.KTS.IsZero() || int(d.TCP.DstPort) != port || d.TCP.Flags&(oracle.FlagSYN|oracle.FlagACK) != oracle.FlagSYN {
+					continue
+				}
+				ts = append(ts, e.KTS)
+			}
+			if len(ts) < 1<<uint(32-bits) {
+				run.Inconclusive(fmt.Sprintf("only %d connection attempts seen for %d targets", len(ts), 1<<uint(32-bits)))
+				break
+			}
+			sort.Slice(ts, func(a, b int) bool { return ts[a].Before(ts[b]) })
+			eps := 2*time.Millisecond + 4*res.Stall
+			worst, wk, wspan, wneed := time.Duration(0), 0, time.Duration(0), time.Duration(0)
+			var windows int64
+			for a := 0; a < len(ts); a++ {
+				for b := a + burst + 2; b < len(ts); b++ {
+					k := b - a + 1
+					nominal := time.Duration(k-1-burst) * per
+					need := nominal - nominal/50 - eps
+					span := ts[b].Sub(ts[a])
+					windows++
+					if span < need && need-span > worst {
+						worst, wk, wspan, wneed = need-span, k, span, need
+					}
+				}
+			}
+			if wk > 0 && attempt < 2 {
+				run.Count("app_short_window_runs_retried", 1)
+				continue
+			}
+			if wk > 0 {
+				run.Violation("app-rate-exceeded:"+kind, fmt.Sprintf("--rate %s: %d consecutive connection attempts of %d (for %d targets) started within %v by kernel timestamps; 0.98*(k-1-%d)*W/N - eps = %v: %s", rate, wk, len(ts), 1<<uint(32-bits), wspan, burst, wneed, strings.Join(args, " ")), args)
+			}
+			run.Count("app_rate_runs", 1)
+			run.Count("app_rate_runs:"+kind, 1)
+			run.Count("app_rate_connections_timestamped", int64(len(ts)))
+			run.Count("app_rate_windows_checked", windows)
+			run.Distinct(strings.Join(args, " ") + behaviour)
+			break
+		}
+		ln.Close()
 	}
 }
